@@ -15,7 +15,10 @@ CLAIMS = {
  'C17': ('model_checking', 'reset() from an arbitrary invariant state equals a freshly constructed machine field by field; HALT step is the identity.', 'DESIGN.md 3 C17', 'Inv, Inv_tab, Inv_en in the pre-state', 'CBMC field-wise equality of VM::reset() result with VM(original program)'),
  'C07': ('translation_validation', 'Per enumerated program shape (canonical layout) the natively compiled program is run by the real VM symbolically in all literal values and compared stop by stop with a reference interpreter that emits line events.', 'DESIGN.md 3 C07', 'shape family enumerated, literals symbolic; compiler executed natively per shape; reference = lib/theolang.py', 'CBMC symbolic execution of the real VM on natively compiled shapes vs reference interpreter (translation validation)'),
  'C08': ('model_checking', 'One-step inductive invariant (tables inverse, sites are exactly the POTENTIAL_BREAK instructions, no hidden-file location) over the real GenState::breakpoint / removeTopPotBreak / advanceLine / getMarkPos / emit from arbitrary symbolic table states, with the exact effect of each call; generator runs of any length by induction.', 'DESIGN.md 3 C08', 'syntactic frame check that only these functions touch the tables; token-line provenance checked concretely on native layouts', 'CBMC one-step induction over GenState table functions of gen.cpp from symbolic states'),
+ 'C12': ('translation_validation', 'Per enumerated macro pattern the real MacroDetector constructor runs natively; the solver validates its verdict and tables: non-prefix-free / ambiguous patterns (witness found by the solver on a derivation-table encoding) must be rejected, accepted patterns are recognised exactly by the real LR driver on all inputs up to the bound; getErrors executed symbolically; fixed expectation file for verdicts.', 'DESIGN.md 3 C12', 'pattern family <= 2 (quick) / <= 3 symbols; generator internals run natively only; expectation file spec/c12_rejections.json', 'translation validation: native LR table generation per pattern + CBMC symbolic execution of LRParser::parse and derivation-table oracle'),
+ 'C13': ('translation_validation', 'Per enumerated grammar the real generateParseTables runs natively; the real LRParser<int,int>::parse is executed symbolically on the produced tables for all inputs up to the bound against a CYK-style derivation-table oracle (accept iff in language / prefix in language, returned value = fold of the unique derivation, conflict-free implies unambiguous); FIRST sets compared with the textbook fixpoint on every grammar natively.', 'DESIGN.md 3 C13', 'grammar family sampled for the solver, exhaustive natively for FIRST; symbolic calculateFirstSets did not finish and is not part of the verdict', 'translation validation: native table generation per grammar + CBMC symbolic execution of the real LR driver vs derivation-table oracle'),
  'C14': ('model_checking', 'Bisimulation of the scanner automata (committed flex tables, lexer.l, fixed token spec, regenerated tables) proved as a one-step inductive SMT query over all 256 bytes (inputs of any length), plus bounded symbolic-string checks of the flex matching loop (longest match, line numbers).', 'DESIGN.md 2.3 / 3 C14', 'flex runtime buffer management not modelled; table model validated against the native yylex on every run', 'SMT (z3 + cvc5) inductive bisimulation query over DFAs extracted from lex.yy.c / lexer.l / tokens.spec'),
+ 'C15': ('model_checking', 'The real Theo::scan is executed symbolically with the flex API replaced by a script lexer: include graphs (targets, presence, main) and line numbers chosen by the solver within small bounds, compared with a reference include expander; layer-A obligations on exists_scanner/create_scanner/cleanup_scanner; every solver counterexample and 242 generated graphs are replayed through the native scanner.', 'DESIGN.md 3 C15', 'bounds: <= 3 files x <= 2 entries x <= 3 visits symbolic (quick); larger layouts concrete with symbolic lines; termination beyond the bound argued from the distinct-names invariant', 'CBMC bounded symbolic execution of scan.cpp with a scripted lexer stub vs reference expander'),
  'C16': ('translation_validation', 'Per compiled shape the solver finds a routine annotation proving the call graph acyclic (existential SAT query) and the real VM run (symbolic literals) respects the depth bound and halts after exactly the reference number of steps.', 'DESIGN.md 3 C16', 'shape family enumerated; compiler native per shape', 'SAT-found region annotation (CBMC) + symbolic VM run vs reference step count'),
  'C19': ('model_checking', 'Inductive invariant data.size()==sum of live frame sizes and contiguity, preserved by one symbolic step for all opcodes.', 'DESIGN.md 3 C19', 'WF program; bounds in evidence', 'CBMC one-step induction over VM::executeSingle'),
  'C20': ('model_checking', 'Signed-overflow assertions on the nsw arithmetic of the real step for all 32-bit operands plus the natural-number invariant.', 'DESIGN.md 3 C20', 'WF program (CONST operands >= 0)', 'CBMC --signed-overflow-check on IR-derived C of VM::executeSingle, all operand values'),
